@@ -50,9 +50,10 @@ private:
     thread_dispatcher& my_thread_dispatcher;
     int my_soft_limit{ 0 };
     std::atomic<int> my_total_request{ 0 };
-    // my_pending_delta is set to pending_delta_base to have ability to hold negative values
-    // consider increase base since thead number will be bigger than 1 << 15
-    static constexpr std::uint64_t pending_delta_base = 1 << 15;
+    // my_pending_delta is set to pending_delta_base to have ability to hold negative values.
+    // The low bits hold pending_delta_base plus the sum of the pending deltas, the bits above count the pending updates.
+    // A single delta is any int (an arena with N slots requests N - 1 workers at once), so the base is 1 << 32.
+    static constexpr std::uint64_t pending_delta_base = std::uint64_t(1) << 32;
     std::atomic<std::uint64_t> my_pending_delta{ pending_delta_base };
     mutex_type my_mutex;
 };
